@@ -71,7 +71,7 @@ class World:
     PROBES_EXPECTED = ["multi-segment-split", "non-adjacent-indices", "descending-indices", "concat", "append-op",
                        "idle-qubits", "initial-state", "peer-fault", "after-peer-fault", "phase-op", "wrapper-gate",
                        "custom-gate", "empty-circuit", "unitary", "stepwise", "arity>=3", "rejected-request", "inplace-backend",
-                       "symbolic-circuit", "alloc-fault", "grown-from-shared-list", "register-wider-than-8"]
+                       "symbolic-circuit", "alloc-fault", "grown-from-shared-list", "register-wider-than-8", "deep-circuit"]
 
     # ------------------------------------------------------------ generation
     def gen_plan(self, seed, tier):
@@ -108,7 +108,9 @@ class World:
             return {"op": "mk", "args": {"c": c}}
         for _ in range(r.randint(1, 3)):
             steps.append(mk())
-        pf = {"none": 0.0, "low": 0.1, "medium": 0.3}[cfg["faults"]]
+        if r.random() < 0.06:
+            steps.append(self._gen_long(r, cfg))
+        pf = {"none": 0.0, "low": 0.2, "medium": 0.45}[cfg["faults"]]
         while len(steps) < n_steps:
             op = r.choices(["mk", "concat", "append", "wf", "unitary", "stepwise", "reject", "clear", "symeval", "mk_grow"],
                            [2, 2, 1.5, 8, 3, 2, 0.7, 0.3 if cfg["cache_clear"] else 0, cfg["symbolic"], cfg["grow"]])[0]
@@ -129,7 +131,8 @@ class World:
                     # the client evolves ONE buffer layer by layer: psi[:] = sim.get_wavefunction(c, psi).amplitudes
                     s["args"]["chain"] = r.randint(1, 3)
                 if r.random() < pf:
-                    s["fault"] = r.choice([{"kind": "peer", "at": r.randrange(0, 3)}, {"kind": "alloc", "at": r.randrange(0, 20)}])
+                    s["fault"] = r.choice([{"kind": "peer", "at": r.randrange(0, 3)}, {"kind": "peer", "at": r.randrange(0, 2)},
+                                           {"kind": "alloc", "at": r.randrange(0, 20)}])
                 steps.append(s)
             elif op == "unitary":
                 s = {"op": "unitary", "args": {"c": r.randrange(64)}}
@@ -156,6 +159,12 @@ class World:
             s["client"] = r.randrange(cfg["clients"])
             s["rs"] = r.getrandbits(32)
         return {"format": 1, "property": PID, "world": "runners", "seed": seed, "config": cfg, "steps": steps}
+
+    def _gen_long(self, r, cfg):
+        """A deep circuit ("circuits of any length"): hundreds of one- and two-qubit gates on 2-3 qubits, described by a
+        seed and rebuilt when the step runs."""
+        return {"op": "long", "args": {"n": r.choice([2, 2, 3]), "len": r.choice([r.randint(257, 300), r.randint(300, 520), r.randint(513, 700), 256, 257, 512]),
+                                       "seed": r.getrandbits(32), "init": r.choice([None, {"basis": r.randrange(8)}, {"rand": r.getrandbits(30)}])}}
 
     def _gen_symeval(self, r, cfg):
         """An all-symbolic circuit (every gate parametric, every parameter an expression over free symbols): the
@@ -543,6 +552,51 @@ class World:
             err = float(np.max(np.abs(um - want)))
             ctx.check(err <= self._tol(ent), "refine", "whole-matrix", lambda: f"to_unitary differs from the ordered product by {err:.3e} for {ent['c']!r}")
         ctx.log("unitary", "ok", n=n)
+
+    def _do_long(self, ctx, st, step, a):
+        """to_unitary, the bundled simulator and step-wise application on one deep circuit."""
+        from orquestra.quantum.runners.symbolic_simulator import SymbolicSimulator
+
+        rr = random.Random(a["seed"])
+        n = a["n"]
+        spec = gen.rand_circuit(rr, n, a["len"], phase_ops=0.0, explicit_n=1.0, max_arity=2, wrappers=0.0, custom=0.0, rich=False,
+                                exclude=["U3", "RH", "Delay", "MyNonUnitary"], echo=0.05)
+        spec["n"] = n
+        ok, circ = call(gen.build_circuit, spec)
+        if not ok:
+            ctx.fail("unexpected-reject", "construct", f"constructing a circuit of {a['len']} gates raised {type(circ).__name__}: {circ}")
+        ops = list(circ.operations)
+        mats = []
+        for o in ops:
+            okm, u = call(lambda: np.array(o.gate.matrix, dtype=complex))
+            if not okm:
+                ctx.log("long", "own-matrix-unavailable")
+                return
+            mats.append(u)
+        ent = {"ops": ops, "mats": mats, "n": n, "merr": None}
+        tol = 1e-9 * (1 + len(ops))
+        what = f"a circuit of {len(ops)} gates on {n} qubits (seed {a['seed']})"
+        ok, u = call(circ.to_unitary)
+        ctx.called("Circuit.to_unitary")
+        ctx.check(ok, "unexpected-reject", "to_unitary", lambda: f"to_unitary raised {type(u).__name__}: {u} for {what}")
+        with judge(ctx):
+            um = np.array(u, dtype=complex)
+            want = np.stack([self._model(ctx, ent, np.eye(2 ** n, dtype=complex)[:, j])[0] for j in range(2 ** n)], axis=1)
+            err = float(np.max(np.abs(um - want)))
+            ctx.check(um.shape == want.shape and err <= tol, "refine", "whole-matrix:deep-circuit",
+                      lambda: f"to_unitary of {what} differs from the ordered product of its gates by {err:.3e}")
+        init = self._init_state(a["init"], n, None)
+        wantv, _ = self._model(ctx, ent, init)
+        ok, wf = call(SymbolicSimulator().get_wavefunction, circ, None if init is None else init.copy())
+        ctx.called("get_wavefunction:SymbolicSimulator")
+        ctx.check(ok, "unexpected-reject", "simulate", lambda: f"get_wavefunction raised {type(wf).__name__}: {wf} for {what}")
+        with judge(ctx):
+            got = np.asarray(wf.amplitudes, dtype=complex).reshape(-1)
+            err = float(np.max(np.abs(got - wantv)))
+            ctx.check(err <= tol, "refine", "final-state:deep-circuit", lambda: f"final state of {what} differs from the model by {err:.3e}")
+        st["evals"] += 1
+        ctx.probe("deep-circuit")
+        ctx.log("long", "ok", n=n, n_ops=len(ops))
 
     def _do_stepwise(self, ctx, st, step, a):
         ent = self._pick(st, a["c"])
